@@ -446,3 +446,73 @@ pub open spec fn deposits_result(pools0: Map<PoolKey, PoolState>, c0: IMap<CoinI
     &&& !legacy ==> deps_settled(c0, c1, deps, n, k, minted, dep_divisor(deps), height)
     &&& share_sum(minted, dep_weights(deps), dep_divisor(deps), n) <= minted
 }
+
+// ---- settlement of the liquidity withdrawals of one pool (C15/C16)
+pub open spec fn withdrawals_pre(reqs: Seq<Transaction>, k: PoolKey) -> bool {
+    &&& reqs.len() > 0
+    &&& forall|i: int| 0 <= i < reqs.len() ==> (#[trigger] reqs[i]).outputs@.len() == 1 && reqs[i].outputs@[0].value.0 > 0
+    &&& forall|i: int, j: int| 0 <= i < j < reqs.len() ==> spec_txhash(#[trigger] reqs[i]) != spec_txhash(#[trigger] reqs[j])
+}
+/// PoolState::withdraw(q): q liquidity retired; the proportional (rounded down) part of both reserves paid out, everything when the pool is emptied
+pub open spec fn pool_withdrawn(p0: PoolState, p1: PoolState, q: int, wl: int, wr: int) -> bool {
+    &&& p1.liqs as int == p0.liqs - q
+    &&& p1.liqs == 0 ==> wl == p0.lefts && wr == p0.rights && p1.lefts == 0 && p1.rights == 0
+    &&& p1.liqs != 0 ==> wl == (p0.lefts * q) / (p0.liqs as int) && wr == (p0.rights * q) / (p0.liqs as int) && p1.lefts as int == p0.lefts - wl && p1.rights as int == p0.rights - wr
+}
+/// a withdrawal request's output becomes its pro-rata share of the left payout; a second coin with the share of the right payout appears next to it
+pub open spec fn wd_coins(t: Transaction, k: PoolKey, wl: int, wr: int, q: int, height: BlockHeight, a: CoinDataHeight, b: CoinDataHeight) -> bool {
+    let o = t.outputs@[0];
+    &&& a.height == height && a.coin_data.covhash == o.covhash && a.coin_data.additional_data == o.additional_data && a.coin_data.denom == k.left
+        && a.coin_data.value.0 as int == spec_multiply_frac(wl, o.value.0 as int, q)
+    &&& b.height == height && b.coin_data.covhash == o.covhash && b.coin_data.additional_data == o.additional_data && b.coin_data.denom == k.right
+        && b.coin_data.value.0 as int == spec_multiply_frac(wr, o.value.0 as int, q)
+}
+pub open spec fn wd_id(reqs: Seq<Transaction>, n: int, id: CoinID) -> bool { exists|i: int| 0 <= i < n && (id == cid(#[trigger] reqs[i], 0) || id == cid(reqs[i], 1)) }
+pub open spec fn wds_settled(c0: IMap<CoinID, CoinDataHeight>, c: IMap<CoinID, CoinDataHeight>, reqs: Seq<Transaction>, n: int, k: PoolKey, wl: int, wr: int, q: int, height: BlockHeight) -> bool {
+    &&& forall|id: CoinID| #[trigger] c.contains_key(id) <==> (c0.contains_key(id) || wd_id(reqs, n, id))
+    &&& forall|i: int| 0 <= i < n ==> wd_coins(#[trigger] reqs[i], k, wl, wr, q, height, c[cid(reqs[i], 0)], c[cid(reqs[i], 1)])
+    &&& forall|id: CoinID| c.contains_key(id) && !wd_id(reqs, n, id) ==> #[trigger] c[id] == c0[id]
+}
+/// C15/C16: the withdrawals of one pool settled: exactly the redeemed liquidity is retired, the payouts leave the reserves,
+/// every request receives its rounded-down share of both payouts (the shares add up to at most the payouts)
+pub open spec fn withdrawals_result(pools0: Map<PoolKey, PoolState>, c0: IMap<CoinID, CoinDataHeight>, reqs: Seq<Transaction>, k: PoolKey, height: BlockHeight,
+                                    pools1: Map<PoolKey, PoolState>, c1: IMap<CoinID, CoinDataHeight>, wl: int, wr: int) -> bool {
+    let n = reqs.len() as int; let q = true_sum(out_vals(reqs, 0), n);
+    &&& 0 <= wl <= u128::MAX && 0 <= wr <= u128::MAX
+    &&& pools1.dom() == pools0.dom() && (forall|k2: PoolKey| k2 != k && pools0.contains_key(k2) ==> #[trigger] pools1[k2] == pools0[k2])
+    &&& pool_withdrawn(pools0[k], pools1[k], q, wl, wr)
+    &&& wds_settled(c0, c1, reqs, n, k, wl, wr, q, height)
+    &&& share_sum(wl, out_vals(reqs, 0), q, n) <= wl && share_sum(wr, out_vals(reqs, 0), q, n) <= wr
+}
+pub proof fn lemma_wd_id_step(reqs: Seq<Transaction>, n: int, id: CoinID)
+    requires 0 <= n < reqs.len()
+    ensures wd_id(reqs, n + 1, id) <==> (wd_id(reqs, n, id) || id == cid(reqs[n], 0) || id == cid(reqs[n], 1))
+{
+    if wd_id(reqs, n + 1, id) { let i = choose|i: int| 0 <= i < n + 1 && (id == cid(#[trigger] reqs[i], 0) || id == cid(reqs[i], 1)); if i < n { assert(wd_id(reqs, n, id)); } }
+    if wd_id(reqs, n, id) { let i = choose|i: int| 0 <= i < n && (id == cid(#[trigger] reqs[i], 0) || id == cid(reqs[i], 1)); assert(0 <= i < n + 1 && (id == cid(reqs[i], 0) || id == cid(reqs[i], 1))); }
+    if id == cid(reqs[n], 0) || id == cid(reqs[n], 1) { assert(0 <= n < n + 1 && (id == cid(reqs[n], 0) || id == cid(reqs[n], 1))); }
+}
+pub proof fn lemma_wds_settled_step(c0: IMap<CoinID, CoinDataHeight>, c: IMap<CoinID, CoinDataHeight>, reqs: Seq<Transaction>, n: int, k: PoolKey, wl: int, wr: int, q: int, height: BlockHeight, a: CoinDataHeight, b: CoinDataHeight)
+    requires wds_settled(c0, c, reqs, n, k, wl, wr, q, height), 0 <= n < reqs.len(), wd_coins(reqs[n], k, wl, wr, q, height, a, b),
+             forall|i: int, j: int| 0 <= i < j < reqs.len() ==> spec_txhash(#[trigger] reqs[i]) != spec_txhash(#[trigger] reqs[j])
+    ensures wds_settled(c0, c.insert(cid(reqs[n], 0), a).insert(cid(reqs[n], 1), b), reqs, n + 1, k, wl, wr, q, height)
+{
+    let ia = cid(reqs[n], 0); let ib = cid(reqs[n], 1);
+    let c2 = c.insert(ia, a).insert(ib, b);
+    assert(ia != ib);
+    assert forall|id: CoinID| true implies (#[trigger] wd_id(reqs, n + 1, id) <==> (wd_id(reqs, n, id) || id == ia || id == ib)) by { lemma_wd_id_step(reqs, n, id); }
+    assert forall|i: int| 0 <= i < n implies cid(#[trigger] reqs[i], 0) != ia && cid(reqs[i], 0) != ib && cid(reqs[i], 1) != ia && cid(reqs[i], 1) != ib by { assert(spec_txhash(reqs[i]) != spec_txhash(reqs[n])); }
+    assert forall|i: int| 0 <= i < n + 1 implies wd_coins(#[trigger] reqs[i], k, wl, wr, q, height, c2[cid(reqs[i], 0)], c2[cid(reqs[i], 1)]) by {}
+}
+/// inserting a coin under an id (hash(tx), i) beyond tx's outputs cannot break the origin invariant
+pub proof fn lemma_origin_insert_extra(c: IMap<CoinID, CoinDataHeight>, tx: Transaction, i: int, d: CoinDataHeight)
+    requires origin_ok(c), tx.outputs@.len() <= i <= 255
+    ensures origin_ok(c.insert(cid(tx, i), d))
+{
+    broadcast use axiom_txhash_inj;
+    let c2 = c.insert(cid(tx, i), d);
+    assert forall|tx2: Transaction, i2: int| 0 <= i2 < tx2.outputs@.len() && i2 <= 255 && c2.contains_key(#[trigger] cid(tx2, i2))
+        implies c2[cid(tx2, i2)].coin_data.covhash == tx2.outputs@[i2].covhash by {
+        if cid(tx2, i2) == cid(tx, i) { assert(spec_txhash(tx2) == spec_txhash(tx)); assert(i2 as u8 == i as u8); assert(i2 == i); assert(tx2.outputs@ == tx.outputs@); assert(false); }
+    }
+}
